@@ -27,13 +27,10 @@ Lemma c01_extras_overwrite_witness :
   spec_contains [mkC OLt (mkV 0 [2%N] None None None []) false] (mkV 0 [2%N; 0%N] None None None []) true = false.
 Proof. split; vm_compute; reflexivity. Qed.
 
-(* pins.txt says c==1.0, pins2.txt says c==3.0 (both fully pinned constraint files): c==3.0 is emitted *)
-Lemma c01_pins_override_witness :
-  match w_c01_pins_override_run 100 with COk g _ => pin_of g "c" | _ => None end = Some (Some "3.0") /\
-  match w_c01_pins_override_constraints with
-  | Some (cfile :: _) => map (fun r => (rname r, spec_contains (rspec r) (mkV 0 [3%N; 0%N] None None None []) true)) (dreqs cfile)
-  | _ => [] end = [("c", false)].
-Proof. split; vm_compute; reflexivity. Qed.
+(* (after /repo 8ac3bda) pins.txt says c==1.0, pins2.txt says c==3.0: the pins are merged and the run fails on c *)
+Lemma c01_pins_merged_witness :
+  match w_c01_pins_override_run 100 with CNoCand _ nm _ => nm | COk _ _ => "<ok>" | CFatal _ => "<fatal>" end = "c".
+Proof. exact w_c01_pins_override_ok. Qed.
 
 (* C02: closure fails - a successful run leaves an input's project unsolved and un-emitted *)
 Lemma c02_unsolved_witness :
@@ -63,8 +60,8 @@ Qed.
 Lemma c09_diverges_witness : w_c09_diverges_run 150 = CFatal EFuel.
 Proof. exact w_c09_diverges_ok. Qed.
 
-(* the failure names project a, which is not in the graph handed back with the exception *)
-Lemma c09_failure_not_in_graph_witness :
-  match w_c09_failure_not_in_graph_run 100 with CNoCand g nm _ => (nm, pin_of g "a") | _ => (EmptyString, None) end
-    = ("a", None).
+(* (after /repo 8ac3bda) the failing project of the contradictory-pins universe is in the graph handed back *)
+Lemma c09_failure_located_witness :
+  match w_c09_failure_not_in_graph_run 100 with CNoCand g nm _ => (nm, pin_of g "b") | _ => (EmptyString, None) end
+    = ("b", Some None).
 Proof. exact w_c09_failure_not_in_graph_ok. Qed.
